@@ -694,20 +694,26 @@ Definition pool_with_prt (p : pool) (t : prtracker) : pool := mkPool (p_slots p)
 (* notify_waiting_children: every child waiting for parent [b] learns that it is certified.
    (current tree, "fix: notify every waiting child ..."; the pinned tree kept one child per parent
    and did not notify on fast-finalization certificates) *)
-Fixpoint notify_children (e : epoch) (p : pool) (children : list blockid) (acc : pout) : option (pool * pout) :=
+(* [skip_pruned]: current tree ("fix: skip waiting children whose slot was pruned when their parent gets
+   certified"); the pinned tree re-created the pruned slot's state and hit 'parent not known' (None = panic) *)
+Fixpoint notify_children_gen (skip_pruned : bool) (e : epoch) (p : pool) (children : list blockid) (acc : pout) : option (pool * pout) :=
   match children with
   | [] => Some (p, acc)
   | (cs, ch) :: rest =>
+    if skip_pruned && (cs <? first_unpruned p) then notify_children_gen skip_pruned e p rest acc
+    else
     let p' := p_touch p cs in
     match notify_parent_certified e cs (p_ss p' cs) ch with
     | None => None
-    | Some (ss', evs, rps) => notify_children e (p_set_ss p' cs ss') rest (po_app acc (mkPO evs rps))
+    | Some (ss', evs, rps) => notify_children_gen skip_pruned e (p_set_ss p' cs ss') rest (po_app acc (mkPO evs rps))
     end
   end.
-Definition notify_waiting_children (e : epoch) (p : pool) (b : blockid) : option (pool * pout) :=
+Definition notify_children := notify_children_gen true.
+Definition notify_waiting_children_gen (skip_pruned : bool) (e : epoch) (p : pool) (b : blockid) : option (pool * pout) :=
   let children := map snd (filter (fun kv => bid_eqb b (fst kv)) (p_waiting p)) in
   let p1 := mkPool (p_slots p) (p_prt p) (p_ft p) (bremove b (p_waiting p)) (p_panicked p) in
-  notify_children e p1 children po_empty.
+  notify_children_gen skip_pruned e p1 children po_empty.
+Definition notify_waiting_children := notify_waiting_children_gen true.
 
 (* add_valid_cert *)
 Definition add_valid_cert (e : epoch) (p : pool) (c : cert) : option (pool * pout) :=
@@ -835,7 +841,9 @@ Definition pool_add_vote := pool_add_vote_gen true.
 
 (* current tree ("fix: prune after block registration ..."): blocks of decided slots are ignored,
    and the finalization caused by a parent registration prunes like every other finalization *)
-Definition pool_add_block (e : epoch) (p : pool) (b par : blockid) : pool * presult * pout :=
+(* [genesis_parent_ok]: current tree ("fix: treat the genesis block as a certified parent for safe-to-notar");
+   the pinned tree looked only for a certificate in the parent's slot, and genesis has none *)
+Definition pool_add_block_gen (genesis_parent_ok : bool) (e : epoch) (p : pool) (b par : blockid) : pool * presult * pout :=
   if negb (fst par <? fst b) then (panicked p, RPanic, po_empty)
   else if fst b <? first_unpruned p then (p, RVerdict VNone, po_empty)
   else
@@ -849,10 +857,11 @@ Definition pool_add_block (e : epoch) (p : pool) (b par : blockid) : pool * pres
         else
         let p2 := p_set_ss p1 (fst b) (notify_parent_known (p_ss p1 (fst b)) (snd b)) in
         let parent_certified :=
-          match alookup (fst par) (p_slots p2) with
-          | Some pss => is_nf_or_stronger pss (snd par)
-          | None => false
-          end in
+          (genesis_parent_ok && bid_eqb par (0, 0))
+          || match alookup (fst par) (p_slots p2) with
+             | Some pss => is_nf_or_stronger pss (snd par)
+             | None => false
+             end in
         if parent_certified then
           match notify_parent_certified e (fst b) (p_ss p2 (fst b)) (snd b) with
           | None => (panicked p2, RPanic, po_empty)
@@ -870,6 +879,8 @@ Definition pool_add_block (e : epoch) (p : pool) (b par : blockid) : pool * pres
            RVerdict VNone, o1)
       end
     end.
+
+Definition pool_add_block := pool_add_block_gen true.
 
 (* recover_from_standstill *)
 Definition certs_of_slot (ss : slot_state) : list cert :=
